@@ -39,7 +39,7 @@ PROBES = ["earlier_killed", "earlier_io_error", "earlier_clean", "debris_spill_f
           "debris_partial_result", "debris_header_only", "debris_unreadable_parquet", "same_data", "other_data",
           "other_format", "multi_history", "cli", "cli_tsv_leftover", "observed_workers>1", "torn_write",
           "debris_zero_length", "prefix_or_root_differs", "observed_rows_multiple_of_chunk", "rollup_tool", "rollup_same_dir", "earlier_rollup_had_other_inputs", "rollup_outputs_match_input_pattern",
-          "several_collections_with_prefixes", "unlink_refused", "observed_protein_level", "earlier_protein_level", "observed_writes_sqlite", "earlier_wrote_sqlite"]
+          "several_collections_with_prefixes", "unlink_refused", "observed_protein_level", "earlier_protein_level", "observed_writes_sqlite", "earlier_wrote_sqlite", "glob_metacharacters_in_prefix_or_root"]
 RULE = (
     "Histories in one destination directory. Family 1 enumerates, for each grid cell (earlier chunk size x observed "
     "chunk size x same/other data x same/other format), EVERY mutation call index of the earlier assign_confidence run "
@@ -224,10 +224,10 @@ def _family2(seed):
     if rng.random() < 0.4:
         ch_o = _exact_chunk(rng, _n_rows(tab_o))
     observed = _run_desc(rng, tab_o, chunk=ch_o, fmt=fmt_o,
-                         workers=rng.choice([1, 2, 4]), prefix=rng.choice([None, None, "p0"]),
-                         file_root=rng.choice(["", "", "rootA."]), decoys=rng.random() < 0.8, tag="obs")
+                         workers=rng.choice([1, 2, 4]), prefix=rng.choice([None, None, "p0", "p[1]"]),
+                         file_root=rng.choice(["", "", "rootA.", "set[2]*."]), decoys=rng.random() < 0.8, tag="obs")
     multi = rng.random() < 0.35
-    pool_px = ["pa", "pb", "pc"]
+    pool_px = ["pa", "pb", "pc", "run[1]", "run[2]"]  # (file stems become prefixes: "run[1].pin")
     if multi:
         # one call analysing two collections with per-file prefixes (the CLI with several PIN files)
         tab2 = _table_params(rng, file_id=1, level_cols=level_cols)
@@ -240,7 +240,7 @@ def _family2(seed):
         tab = dict(tab_o) if same else _table_params(rng, level_cols=rng.choice([level_cols, ()]))
         e = _run_desc(rng, tab, chunk=rng.choice([n_guess // 5, n_guess // 3, n_guess // 2, 5, None]),
                       fmt=rng.choice([fmt_o, fmt_o, "pin", "parquet"]), workers=rng.choice([1, 2]),
-                      prefix=rng.choice([None, None, "p0", "p1"]), file_root=rng.choice(["", "", "rootA.", "rootB."]),
+                      prefix=rng.choice([None, None, "p0", "p1", "p[1]"]), file_root=rng.choice(["", "", "rootA.", "rootB.", "set[2]*."]),
                       decoys=rng.random() < 0.8, tag=f"e{j}")
         if multi and rng.random() < 0.7:
             e["tables"] = [tab, _table_params(rng, file_id=1, level_cols=tab["level_cols"])]
@@ -476,6 +476,8 @@ def run_scenario(scn, workdir):
     probes["multi_history"] = int(len(scn["earlier"]) > 1)
     probes["observed_protein_level"] = int(scn["observed"].get("fasta_seed") is not None)
     probes["earlier_protein_level"] = int(any(e.get("fasta_seed") is not None for e in scn["earlier"]))
+    probes["glob_metacharacters_in_prefix_or_root"] = int(any(
+        ch in str((r["conf"].get("prefixes"), r["conf"].get("file_root"))) for r in [scn["observed"]] + scn["earlier"] for ch in "[*"))
     probes["observed_writes_sqlite"] = int(bool(scn["observed"].get("sqlite")))
     probes["earlier_wrote_sqlite"] = int(any(e.get("sqlite") for e in scn["earlier"]))
     probes["several_collections_with_prefixes"] = int(len(scn["observed"]["tables"]) > 1)
